@@ -186,3 +186,12 @@ theorem stsei_core (t t' : Token) (b : Block) (self hubc sender : Addr)
     simp_all [Token.core]
 
 end Krp
+
+namespace Krp
+theorem Token.move_wf_supply (t t' : Token) (src dst : Addr) (amt : Nat)
+    (hx : t.move src dst amt = .ok t') : t'.supply = t.supply := by
+  unfold Token.move at hx
+  split at hx
+  · cases hx
+  · injection hx with hx; subst hx; rfl
+end Krp
